@@ -54,6 +54,7 @@ def gen_state(r, path, suffix, name_prefix, affects_fn=None, layouts=("own", "ow
 
     o = gen.Opts(layouts=layouts, max_depth=2, max_blocks=max_blocks, max_items=5, decoys=True, prose=True,
                  eol=eol or r.choice(["\n", "\n", "\n", "\r\n"]), attrs_fn=attrs, multibyte=r.random() < 0.2,
+                 filler_lines=(66000 if r.random() < 0.03 else 0),       # now and then every block sits beyond line 65,536
                  final_newline=r.random() < 0.75)      # some files end without a line terminator (git: `\ No newline at end of file`)
     g = gen.gen_file(r, lang, o)
     text = g.data
